@@ -15,10 +15,17 @@
 (*   start     Dispatch of a class-c metric is about to be called (id d)     *)
 (*   end       it returned: vis = entries of the main list the metric was    *)
 (*             delivered to, in order; rw = rewriters applied, in order      *)
+(*             (rwobs: some receiver saw the name); fate = "bl" dropped by   *)
+(*             the blacklist | "agg" consumed by a drop-raw aggregator |     *)
+(*             "routed" handed to the route loop                             *)
 (* Versions: vers[j] = all lists after the j-th operation (sequential        *)
 (* semantics of TableOps).  A dispatch that started after operation lo had   *)
 (* returned and ended before operation hi+1 was called may only have loaded  *)
-(* a version in lo..hi.  The verdict of every clause is computed here, by    *)
+(* a version in lo..hi, and its whole outcome -- fate, rewritten name and    *)
+(* visited routes TOGETHER -- must be the outcome of ONE such version of the *)
+(* whole table (TableOps.WholeAt): the blacklist of one version with the     *)
+(* routes of another is a table that never existed.                          *)
+(* The verdict of every clause is computed here, by                          *)
 (* TLC; "bad" names the first clause that failed.                            *)
 (* SnapshotImmutable: ANY earlier published snapshot (pub[x][i] = its cells  *)
 (* as read when it was first seen), read again after any later operation,    *)
@@ -92,15 +99,17 @@ MainVers == [x \in 1..Len(vers) |-> vers[x]["main"]]
 
 TEnd ==
   /\ Is("end") /\ Ev.d \in DOMAIN dlo
-  /\ LET lo == dlo[Ev.d] hi == Len(vers) mv == MainVers IN
-     \* routes, rewriters (blacklist, aggregations) are one configuration value, loaded once: one version
-     \* for all of them; the destinations of a route are that route's own configuration, loaded when
-     \* the route is reached: a version of their own
+  /\ LET lo == dlo[Ev.d] hi == Len(vers) mv == MainVers
+         out ==[fate |-> Ev.fate, rw |-> Ev.rw, rwobs |-> Ev.rwobs, vis |-> Ev.vis] IN
+     \* routes, blacklist, rewriters, aggregators are one configuration value, loaded once: ONE version
+     \* for all of them (fate, name and visited routes together); the destinations of a route are that
+     \* route's own configuration, loaded when the route is reached: a version of their own
      bad' = IF IF kind = "dest"
-               THEN /\ \E j \in lo..hi : AtomicAt(Ev.vis, dcl[Ev.d], lo, hi, mv, j)
-                    /\ (Ev.rwobs => \E j \in lo..hi : Ev.rw = Ids(vers[j]["rw"]))
-               ELSE \E j \in lo..hi : /\ AtomicAt(Ev.vis, dcl[Ev.d], lo, hi, mv, j)
-                                      /\ (Ev.rwobs => Ev.rw = Ids(vers[j]["rw"]))
+               THEN /\ \E j \in lo..hi : /\ out.fate = FateOf(vers[j], dcl[Ev.d])
+                                          /\ (out.rwobs => out.rw = Ids(vers[j]["rw"]))
+                    /\ IF out.fate = "routed" THEN \E j \in lo..hi : AtomicAt(out.vis, dcl[Ev.d], lo, hi, mv, j)
+                                              ELSE out.vis = <<>>
+               ELSE WholeObs(out, dcl[Ev.d], lo, hi, mv, vers)
             THEN (IF CheckDead /\ Ev.dead > 0 THEN "NoDeadSend" ELSE "") ELSE "Atomic"
   /\ dlo' = [x \in (DOMAIN dlo) \ {Ev.d} |-> dlo[x]]
   /\ dcl' = [x \in (DOMAIN dcl) \ {Ev.d} |-> dcl[x]]
